@@ -16,6 +16,7 @@ import ast
 from .. import algebra as al
 from ..astutil import dotted, src, walk_local, local_assignments, calls, if_chain, op_test, conjuncts
 from ..dispatch import dispatcher, exact_arm, unary_ops, binary_ops, operand_slots
+from ..inline import bind_args
 from ..report import AnalysisError, Frag
 from ..terms import Tr, Untranslatable
 from .c15 import registered_gradient_kinds, _registry_first
@@ -382,24 +383,60 @@ def _guard_cases(text, a, b):
 
 
 def _functions_table(prog, rep):
+    """functions.<name>(x) constructs the node whose operator literal is <name> on every route (scalar UnaryOp,
+    ElementwiseUnary, element-wise recursion), directly or through a helper that is handed the literal."""
     m = prog.module("optyx.core.functions")
+    ops = set(unary_ops(prog))
+    modfuncs = {f.name: f for f in prog.functions.values() if f.module is m and f.parent is None}
+
+    def built(fi, binding, depth=0):
+        """(set of operator literals constructed, problems) over all returns of fi; binding: parameter -> literal"""
+        lits, bad = set(), []
+        p0 = fi.node.args.args[0].arg if fi.node.args.args else None
+        for r in [x.value for x in walk_local(fi.node) if isinstance(x, ast.Return) and x.value is not None]:
+            for c in [x for x in ast.walk(r) if isinstance(x, ast.Call)]:
+                f = dotted(c.func)
+                if f in ("UnaryOp", "ElementwiseUnary") and len(c.args) == 2:
+                    a = c.args[1]
+                    lit = a.value if isinstance(a, ast.Constant) else binding.get(a.id) if isinstance(a, ast.Name) else None
+                    if lit is None:
+                        bad.append(f"{f}(.., {src(a)}) with an operator that is not a literal here")
+                    else:
+                        lits.add(lit)
+                    if f == "UnaryOp" and src(c.args[0]) not in (f"_ensure_expr({p0})", p0):
+                        bad.append(f"UnaryOp is applied to `{src(c.args[0])[:30]}`, not to the argument")
+                elif f in modfuncs and f not in ("_ensure_expr",) and depth < 2:
+                    h = modfuncs[f]
+                    hb = {}
+                    for prm, arg in bind_args(h.node, c).items():
+                        if isinstance(arg, ast.Constant) and isinstance(arg.value, str):
+                            hb[prm] = arg.value
+                        elif isinstance(arg, ast.Name) and arg.id in binding:
+                            hb[prm] = binding[arg.id]
+                    if h is fi:
+                        # element-wise recursion into the same function must keep the operator
+                        if any(binding.get(k) != v for k, v in hb.items() if k in binding):
+                            bad.append("recursion with a different operator")
+                        continue
+                    if h.name in ops or h.name == "abs_":
+                        lits.add({"abs_": "abs"}.get(h.name, h.name))     # e.g. VectorExpression([cos(xi) ...]) inside sin
+                        continue
+                    l2, b2 = built(h, hb, depth + 1)
+                    lits |= l2
+                    bad += b2
+        return lits, bad
+
     n = 0
-    for fi in prog.functions.values():
-        if fi.module is not m or fi.parent is not None:
-            continue
+    for fi in modfuncs.values():
         want = {"abs_": "abs"}.get(fi.name, fi.name)
-        rets = [r.value for r in walk_local(fi.node) if isinstance(r, ast.Return)]
-        scalar = [r for r in rets if isinstance(r, ast.Call) and dotted(r.func) == "UnaryOp"]
-        if not scalar:
+        if want not in ops:
+            continue
+        lits, bad = built(fi, {})
+        if not lits and not bad:
             continue
         n += 1
-        p = fi.node.args.args[0].arg
-        ok = all(len(r.args) == 2 and src(r.args[0]) == f"_ensure_expr({p})" and isinstance(r.args[1], ast.Constant) and r.args[1].value == want for r in scalar)
-        lits = [r.args[1].value for r in rets if isinstance(r, ast.Call) and dotted(r.func) == "ElementwiseUnary" and len(r.args) == 2 and isinstance(r.args[1], ast.Constant)]
-        ok = ok and all(l == want for l in lits)
-        recur = [c for c in calls(fi.node, local=False) if isinstance(c.func, ast.Name) and c.func.id in prog_function_names(prog, m) and c.func.id != fi.name and c.func.id not in ("UnaryOp", "_ensure_expr")]
-        ok = ok and not recur
-        rep.ob("R02.1", f"functions.{fi.name}", ok, f"{fi.name}(x) constructs the {want!r} node on every route" if ok else f"functions.{fi.name} builds a node for a different operator than its name says", loc=fi.loc, detail="constructor-literal")
+        ok = lits == {want} and not bad
+        rep.ob("R02.1", f"functions.{fi.name}", ok, f"{fi.name}(x) constructs the {want!r} node on every route" if ok else f"functions.{fi.name} builds a node for a different operator than its name says ({sorted(map(str, lits))}{'; ' + bad[0] if bad else ''})", loc=fi.loc, detail="constructor-literal")
     if n < 15:
         raise AnalysisError("functions.py constructors not recognised")
 
